@@ -181,7 +181,7 @@ CHECKS["C38"] = dict(
             dict(spec="MCMulticast.tla", cfg="MCMulticastFlood3.cfg", workers=8, timeout=1200, thorough_only=True)],
     gen=dict(
         quick=[dict(mode="edges", spec=_MG, cfg="MulticastGenMemberEdges0.cfg", depth=8, name="member-edges-1peer-1group"),
-               dict(mode="edges", spec=_MG, cfg="MulticastGenMemberEdges1.cfg", depth=4, max=250, name="member-edges-1group"),
+               dict(mode="edges", spec=_MG, cfg="MulticastGenMemberEdges1.cfg", depth=4, max=150, name="member-edges-1group"),
                dict(mode="sim", spec=_MG, cfg="MulticastGenMemberSim.cfg", depth=12, num=8, max=60, name="member-walks"),
                dict(mode="sim", spec=_MG, cfg="MulticastGenFill.cfg", depth=8, num=4, max=25, salt=1, name="member-fill"),
                dict(mode="edges", spec=_MG, cfg="MulticastGenFloodEdges.cfg", depth=7, max=80, name="flood-edges"),
